@@ -14,6 +14,7 @@ time); anything else is a violation."""
 import json
 import os
 import random
+import re
 import zlib
 
 from .. import core, tlc, treeproj, roundtrip as rt, cmgen
@@ -22,7 +23,21 @@ from . import c01
 
 OT_KEYS = list(rt.OT_DEVIATIONS)
 SER_KEYS = list(rt.SER_DEVIATIONS)
-THEMES = ["blocks", "table", "lists", "ruby", "select", "head", "forms", "phrasing", "sections", "foreign", "text", "attrs", "doc"]
+THEMES = ["blocks", "table", "lists", "ruby", "select", "head", "forms", "phrasing", "sections", "foreign", "text", "attrs", "doc", "names"]
+# the standard's list of elements after which </p> may be omitted, typed from the standard (the followers every optional-tag
+# implementation special-cases), plus the other flow elements of the content model and two extension names
+STD_NAMES = """address article aside blockquote details div dl fieldset figcaption figure footer form h1 h2 h3 h4 h5 h6 header hgroup hr main
+menu nav ol p pre section table ul dialog span a b select button label textarea img br input x-y data""".split()
+_NAME_RE = re.compile(r"^[a-z][a-z0-9_-]*$")
+
+
+def handed_names():
+    """the element-name alphabet of the theme 'names': STD_NAMES completed with every name-like literal of the optional-tags
+    filter and the serializer OF THE TREE UNDER TEST (a name the implementation special-cases is then always explored).  The
+    harvested names only widen the candidates; ContentModel.tla decides what each one is (modelled element, extension, nothing)."""
+    from .. import literals
+    extra = literals.extra_names(STD_NAMES, "html5lib/filters/optionaltags.py", "html5lib/serializer.py")
+    return STD_NAMES + [n for n in extra if _NAME_RE.match(n)]
 
 
 def q(xs):
@@ -123,9 +138,17 @@ def _tree_job(job):
             continue
         ok = True
         try:
-            for b in ("etree", "dom"):
-                if not rt.same(rt.real_reparse(x["text"], b), tree, x["alpha"], x["minb"]):
-                    ok = False
+            # one builder through a fresh parser, the other through the long-lived parser object primed by an unrelated input
+            k = zlib.crc32(x["text"].encode("utf-8", "surrogatepass"))
+            b_fresh, b_long = ("etree", "dom") if k & 1 else ("dom", "etree")
+            x["prior"] = rt.prior_label(k >> 1)
+            if not rt.same(rt.real_reparse(x["text"], b_fresh), tree, x["alpha"], x["minb"]):
+                ok = False
+            if not rt.same(rt.primed_reparse(x["text"], b_long, k >> 1), tree, x["alpha"], x["minb"]):
+                if rt.same(rt.real_reparse(x["text"], b_long), tree, x["alpha"], x["minb"]):
+                    x["history"] = "%s builder, long-lived parser previously given %s" % (b_long, x["prior"])
+                    x["history_at"] = [b_long, k >> 1]
+                ok = False
             if ok and x["raw"] is not None:
                 raw, encn = x["raw"]
                 if not rt.same(rt.real_reparse_bytes(raw, encn), tree, x["alpha"], x["minb"]):
@@ -221,7 +244,8 @@ class Judge(object):
         for i in range(0, len(sel), chunk):
             idx = sel[i:i + chunk]
             tr = {"tree": res["tree"], "chk": not res["gen"],
-                  "outs": [{"o": core.cps(res["outs"][j]["text"]), "alpha": res["outs"][j]["alpha"], "minb": res["outs"][j]["minb"]} for j in idx]}
+                  "outs": [{"o": core.cps(res["outs"][j]["text"]), "alpha": res["outs"][j]["alpha"], "minb": res["outs"][j]["minb"],
+                            "prior": core.cps(res["outs"][j].get("prior", ""))} for j in idx]}
             self.pending.append((tr, res, idx))
             self.bytes += 40 * sum(len(o["o"]) for o in tr["outs"]) // 10 + 2000
         if not sel:
@@ -299,6 +323,12 @@ class Judge(object):
                 ctx.violation("exception in the serialize / re-parse round trip: %s" % x["exc"], case)
                 continue
             ctx.nontriv(_crc([tree, x["text"]]))
+            if x.get("history"):
+                case["history"] = x["history"]
+                case["history_at"] = x["history_at"]
+                ctx.violation("the re-parse of the serializer's output depends on what the parser object parsed before (%s): a fresh "
+                              "parser reads the tree back, the reused one does not" % x["history"], case)
+                continue
             if i in judged and (i in tlc_bad) != (not x["ok"]):
                 ctx.violation("the parser specification and the real parser disagree on the serializer's output (spec %s, real %s)"
                               % ("rejects" if i in tlc_bad else "accepts", "accepts" if x["ok"] else "rejects"), case)
@@ -360,17 +390,27 @@ def run(ctx):
     qk = ctx.quick
     workers = 8
     extra, less, textlen = (0, 1, 2) if qk else (0, 1, 3)
-    deep = [] if qk else ["blocks", "table", "select", "head", "doc", "lists", "ruby"]
+    deep = [] if qk else ["blocks", "table", "select", "head", "doc", "lists", "ruby", "names"]
     deeper = [] if qk else ["lists", "ruby"]
     per_tree = 1 if qk else 2
     frac = 0.35 if qk else 0.3
     cap_full = 40 if qk else 300
     full_mod = 3000 if qk else 3000
     _G.update(full=rt.full_product(), pairwise=rt.pairwise(random.Random(ctx.seed)), listed=set(listed), workers=workers)
+    names = handed_names()
+    os.makedirs(os.path.join(core.VERIF, "out", "C07"), exist_ok=True)
+    names_path = os.path.join(core.VERIF, "out", "C07", "handed_names-%d.json" % os.getpid())
+    with open(names_path, "w") as f:
+        json.dump([core.cps(n) for n in names], f)
+    os.environ["C07_NAMES"] = names_path              # read by MC_RoundTrip (IOEnv)
+    cmgen.set_extension_names(names)
     base = {"blocks": 4, "lists": 4, "phrasing": 4, "sections": 4, "forms": 4, "table": 4, "select": 4, "ruby": 4, "foreign": 4, "head": 4, "doc": 6}
     bounds = {t: base[t] + extra - less + (t in deep) + (t in deeper) for t in base}
     bounds.update(text="1 text node of <= %d atoms x 8 contexts" % textlen, attrs="1 element from ~280 attribute-list candidates")
-    ctx.constants = {"themes": THEMES, "bound (added nodes per theme)": bounds, "TextLen": textlen,
+    bounds["names"] = "%d element(s) from %d handed names x 4 contexts (after <p>x</p>, inside <p>x, first in body, after <div><p>x</p>)" % (
+        1 + ("names" in deep), len(names))
+    ctx.constants = {"themes": THEMES, "bound (added nodes per theme)": bounds, "TextLen": textlen, "handed names": names,
+                     "priors of the long-lived parser": [rt.prior_label(i) for i in range(len(rt.PRIORS))],
                      "KnownDefects(parser, code-faithful)": parser_defects, "OtDefects(intended)": [],
                      "option factors": {k: v for k, v in rt.FACTORS}, "pairwise rows": len(_G["pairwise"]), "full product rows": len(_G["full"]),
                      "TLC-judged outputs per generated tree": per_tree, "TLC-judged fraction of generated trees": frac,
@@ -441,6 +481,10 @@ def run(ctx):
     ctx.notes["all_trees"] = judge.stats
     ctx.notes["trees_by_source"] = judge.by_src
     ctx.notes["failed_outputs_by_finding"] = judge.failed_by_key
+    try:
+        os.remove(names_path)
+    except OSError:
+        pass
 
 
 def replay(case):
@@ -455,6 +499,15 @@ def replay(case):
     print("options:", o)
     print("output:", repr(text))
     bad = 0
+    if c.get("history_at"):
+        b, k = c["history_at"]
+        print("long-lived %s parser first given %s" % (b, rt.prior_label(k)))
+        got = rt.primed_reparse(text, b, k)
+        if not rt.same(got, tree, o["alphabetical_attributes"], o["minimize_boolean_attributes"]) and \
+                rt.same(rt.real_reparse(text, b), tree, o["alphabetical_attributes"], o["minimize_boolean_attributes"]):
+            print("re-parsed by the reused parser:\n%s" % treeproj.show(got))
+            print("VIOLATION property=C07 replay=- (the re-parse depends on the parser object's history)")
+            return 1
     for b in ("etree", "dom"):
         got = rt.real_reparse(text, b)
         if not rt.same(got, tree, o["alphabetical_attributes"], o["minimize_boolean_attributes"]):
